@@ -183,6 +183,8 @@ func C18(ctx *core.Ctx) {
 		return
 	}
 	ctx.Rule("C18.R1", "side consistency (two-colour dataflow): comparisons, paired parameters, model methods, presence tests", 25)
+	ctx.Rule("C18.R9", "every item of a compared list is looked up on the other side: the presence test of a removal/addition loop is reached on every trip", 6)
+	ctx.Rule("C18.R8", "an error-producing comparison of an OLD with a NEW attribute is not additionally conditioned on one program alone", 3)
 	ctx.Rule("C18.R2", "every error-producing test in a hit/miss region is evaluated on every path through the region", 8)
 	ctx.Rule("C18.R3", "declaration-kind exhaustiveness; checkType recursion and warn flags", 10)
 	ctx.Rule("C18.R4", "Audit fails iff errors were logged (an error once logged stays logged: every store to the flag behind ErrorsLogged() stores true, LogError stores it on every path); CLI passes (audit file, argument) as (old, new)", 2)
@@ -541,6 +543,12 @@ func C18(ctx *core.Ctx) {
 					return
 				}
 				n["lk"]++
+				if inCycle(x) {
+					// R9: the presence test is made for EVERY item of the list being walked
+					n["trip"]++
+					ctx.Check(everyTrip(x), "C18.R9", QName(f)+sprintf(" › presence test #%d is made for every item of the loop", n["trip"]), cc.IPos(in), "no path round the loop avoids the lookup",
+						"some items of the "+kc.String()+" list are skipped before they are looked up in the "+mc.String()+" map (a shortcut such as 'the name still exists'): a removal or renumbering hidden behind that shortcut — an enum variant whose number disappears while its name survives — is never reported")
+				}
 				ctx.Check(mc != kc && mc != cMixed && kc != cMixed, "C18.R1", QName(f)+sprintf(" › presence test #%d looks a key of one side up in the other side's map", n["lk"]), cc.IPos(in), kc.String()+" key in "+mc.String()+" map",
 					"a "+kc.String()+" key is looked up in a map built from the "+mc.String()+" side: removals/additions are never detected")
 			}
@@ -609,6 +617,112 @@ func C18(ctx *core.Ctx) {
 			ctx.Check(okSym, "C18.R1", QName(f)+sprintf(" › paired check #%d (%s) is not guarded by the absence of one side only", nc, c.ShortName()), cc.IPos(in), "no one-sided nil guard",
 				"the comparison is skipped when the "+side+" value is nil ("+at+") whatever the other side is: a change from/to an absent value (e.g. a void method gaining a return type) is never reported")
 		}
+	}
+
+	// ---- R8: an error-producing paired comparison is not muted by one side ----------------------
+	// "old.attr differs from new.attr ⇒ error" must fire for every old value and
+	// every new value. A further condition that looks at ONE program only
+	// (old.Modifier != Optional && …) exempts a whole class of declarations from
+	// the comparison: the change passes the audit for exactly those.
+	{
+		var sideOf func(v ssa.Value, d int) (colour, bool)
+		sideOf = func(v ssa.Value, d int) (colour, bool) { // colour, isPresenceTest
+			if d > 6 {
+				return cNone, false
+			}
+			switch x := v.(type) {
+			case *ssa.BinOp:
+				a, pa := sideOf(x.X, d+1)
+				b, pb := sideOf(x.Y, d+1)
+				return joinC(a, b), pa || pb
+			case *ssa.UnOp:
+				if x.Op == token.NOT {
+					return sideOf(x.X, d+1)
+				}
+			case *ssa.Phi:
+				c, pr := cNone, false
+				for _, e := range x.Edges {
+					ce, pe := sideOf(e, d+1)
+					c, pr = joinC(c, ce), pr || pe
+				}
+				return c, pr
+			case *ssa.Const:
+				return cNone, false
+			case *ssa.Extract:
+				if lk, ok := x.Tuple.(*ssa.Lookup); ok && lk.CommaOk && x.Index == 1 {
+					return k.of(lk.X), true
+				}
+			}
+			return k.of(v), false
+		}
+		hasLogErr := func(b *ssa.BasicBlock) bool {
+			if len(b.Preds) != 1 {
+				return false
+			}
+			for _, x := range b.Instrs {
+				if c, ok := ssax.AsCall(x); ok && c.Method != nil && c.Method.Name() == "LogError" {
+					return true
+				}
+			}
+			return false
+		}
+		nPaired := 0
+		for _, f := range fns {
+			np := 0
+			for _, b := range f.Blocks {
+				t, ok := b.Instrs[len(b.Instrs)-1].(*ssa.If)
+				if !ok {
+					continue
+				}
+				side, _ := sideOf(t.Cond, 0)
+				if side != cMixed || !(hasLogErr(b.Succs[0]) || hasLogErr(b.Succs[1])) {
+					continue
+				}
+				np++
+				nPaired++
+				guard, gside := "", cNone
+				for cur := b; cur != nil && guard == ""; cur = cur.Idom() {
+					if len(cur.Preds) != 1 {
+						continue
+					}
+					p := cur.Preds[0]
+					g, ok := p.Instrs[len(p.Instrs)-1].(*ssa.If)
+					if !ok || g == t || p.Succs[0] == p.Succs[1] {
+						continue
+					}
+					gs, presence := sideOf(g.Cond, 0)
+					if presence {
+						break // the hit/miss test of the pairing itself: above it the two sides are not paired yet
+					}
+					if gs == cOld || gs == cNew {
+						// "was absent before" (empty name / nil) is the audit's own notion of an
+						// allowed addition — `old.Extends != "" && old.Extends != new.Extends` —
+						// and nil guards of calls are judged by R1(e); every other one-sided
+						// condition exempts declarations that do exist on both sides
+						if bo, isB := g.Cond.(*ssa.BinOp); isB && (bo.Op == token.EQL || bo.Op == token.NEQ) {
+							isAbsent := func(v ssa.Value) bool {
+								c, ok := v.(*ssa.Const)
+								if !ok {
+									return false
+								}
+								if c.IsNil() {
+									return true
+								}
+								b, isBasic := c.Type().Underlying().(*types.Basic)
+								return isBasic && b.Info()&types.IsString != 0 && c.Value != nil && c.Value.ExactString() == `""`
+							}
+							if isAbsent(bo.X) || isAbsent(bo.Y) {
+								continue
+							}
+						}
+						guard, gside = cc.IPos(g), gs
+					}
+				}
+				ctx.Check(guard == "", "C18.R8", QName(f)+sprintf(" › error-producing old/new comparison #%d is not conditioned on one side alone", np), cc.IPos(t), "no dominating condition between the pairing and the comparison reads only one program",
+					"the comparison that reports this breaking change is evaluated only when a condition on the "+gside.String()+" program alone holds ("+guard+"): for every declaration that condition excludes (a field that was optional, say) the change — optional → required — passes the audit unreported")
+			}
+		}
+		ctx.Check(nPaired >= 2, "C18.R8", "audit › error-producing old/new comparisons examined", "", sprintf("%d comparison(s)", nPaired), "no error-producing paired comparison found")
 	}
 
 	// ---- R2 ----------------------------------------------------------------------------------
